@@ -434,7 +434,7 @@ def rule_R11c(src):
     the early `return Err(e)` must have the function's return type)."""
     mask = rl.code_mask(src)
     out, pos, n = [], 0, 0
-    rx = re.compile(r'\(([^()]*?)\.\.([^()]*?)\)\s*\.map\(\|\s*([A-Za-z_][A-Za-z0-9_]*)\s*\|')
+    rx = re.compile(r'\(([^()]*?)\.\.([^()]*?)\)\s*\.map\(\s*\|\s*([A-Za-z_][A-Za-z0-9_]*)\s*\|')
     for m in rl.find_code(src, rx, mask=mask):
         if m.start() < pos:
             continue
@@ -465,7 +465,7 @@ def rule_R11(src):
     (std iterators are evaluated in order by collect; the closure is a single expression)"""
     mask = rl.code_mask(src)
     out, pos, n = [], 0, 0
-    rx = re.compile(r'\(([^()]*?)\.\.([^()]*?)\)\s*\.map\(\|\s*([A-Za-z_][A-Za-z0-9_]*)\s*\|')
+    rx = re.compile(r'\(([^()]*?)\.\.([^()]*?)\)\s*\.map\(\s*\|\s*([A-Za-z_][A-Za-z0-9_]*)\s*\|')
     for m in rl.find_code(src, rx, mask=mask):
         if m.start() < pos:
             continue
